@@ -414,8 +414,7 @@ theorem writeRela_post {L : Layouts} {c : Cls} {s s' : St} {r : Rel} (h : s.writ
   · split at h
     · cases h
     · cases h
-    · simp only at h
-      split at h
+    · split at h
       · cases h
       · injection h with h; subst h; exact write_post _ _
 
@@ -1035,6 +1034,110 @@ theorem orderSymbols_locals_first (syms : List Sym) :
   · intro s hs
     rw [List.drop_left] at hs
     simpa using (List.mem_filter.mp hs).2
+
+/-- the gABI reader's `sh_info` check accepts the symbol order the writer produces -/
+theorem checkInfo_ordered (syms : List Sym) (null : Symbol) (h0 : null.bind = 0) (f : Sym → Symbol)
+    (hf : ∀ s, (f s).bind = if s.isGlobal then 1 else 0) :
+    checkInfo ((syms.filter (fun s => !s.isGlobal)).length + 1) (null :: (orderSymbols syms).map f) = .ok () := by
+  unfold checkInfo orderSymbols
+  have hlen : ¬ (null :: (syms.filter (fun s => !s.isGlobal) ++ syms.filter (fun s => s.isGlobal)).map f).length <
+      (syms.filter (fun s => !s.isGlobal)).length + 1 := by
+    simp
+  rw [if_neg hlen]
+  have htake : (null :: (syms.filter (fun s => !s.isGlobal) ++ syms.filter (fun s => s.isGlobal)).map f).take
+      ((syms.filter (fun s => !s.isGlobal)).length + 1) = null :: (syms.filter (fun s => !s.isGlobal)).map f := by
+    simp [List.take_succ_cons, List.map_append]
+  have hdrop : (null :: (syms.filter (fun s => !s.isGlobal) ++ syms.filter (fun s => s.isGlobal)).map f).drop
+      ((syms.filter (fun s => !s.isGlobal)).length + 1) = (syms.filter (fun s => s.isGlobal)).map f := by
+    simp [List.map_append]
+  rw [htake, hdrop]
+  have h1 : (null :: (syms.filter (fun s => !s.isGlobal)).map f).any (fun s => s.bind != STB_LOCAL) = false := by
+    simp [List.any_cons, h0, STB_LOCAL, hf]
+  have h2 : ((syms.filter (fun s => s.isGlobal)).map f).any (fun s => s.bind == STB_LOCAL) = false := by
+    simp [STB_LOCAL, hf]
+  simp [h1, h2]
+
+/-! ### table entries are read back by the reader's own entry parsers -/
+
+theorem mkRela_relaHdr (c : Cls) (off rsym rtype nsyms : Nat) (add : Int)
+    (hfits : ∀ f ∈ rela c, fits f.fmt ((relaHdr c off rsym rtype add).get f.name) = true)
+    (hs : rsym < nsyms) (ht : rtype < (match c with | .c32 => 256 | .c64 => 4294967296)) :
+    mkRela c nsyms (recOf (rela c) (relaHdr c off rsym rtype add)) =
+      .ok { offset := off, sym := rsym, type := rtype, addend := add } := by
+  have g_off := get_recOf_unsigned (fs := rela c) (n := .r_offset) (f := ⟨.r_offset, wordFmt c⟩) (by cases c <;> rfl)
+    (by cases c <;> rfl) hfits
+  have g_info := get_recOf_unsigned (fs := rela c) (n := .r_info) (f := ⟨.r_info, wordFmt c⟩) (by cases c <;> rfl)
+    (by cases c <;> rfl) hfits
+  have g_add := get_recOf (rela c) (relaHdr c off rsym rtype add) .r_addend ⟨.r_addend, swordFmt c⟩ (by cases c <;> rfl)
+  have f_add : fits (swordFmt c) add = true := by
+    have := hfits ⟨.r_addend, swordFmt c⟩ (by cases c <;> simp [rela])
+    simpa [relaHdr, Hdr.get] using this
+  have v_off : (relaHdr c off rsym rtype add).get .r_offset = (off : Int) := by simp [relaHdr, Hdr.get]
+  have v_add : (relaHdr c off rsym rtype add).get .r_addend = add := by simp [relaHdr, Hdr.get]
+  rw [v_off] at g_off
+  rw [v_add] at g_add
+  have e_off := Int.ofNat_inj.mp g_off
+  unfold mkRela
+  cases c
+  · have v_info : (relaHdr .c32 off rsym rtype add).get .r_info = ((rsym * 256 + rtype : Nat) : Int) := by
+      simp [relaHdr, Hdr.get]
+    rw [v_info] at g_info
+    have e_info := Int.ofNat_inj.mp g_info
+    have hts := toSigned_rawOf (f := .i) rfl f_add
+    simp only [e_info, e_off, g_add] at *
+    have h1 : (rsym * 256 + rtype) / 256 = rsym := by omega
+    have h2 : (rsym * 256 + rtype) % 256 = rtype := by omega
+    simp [h1, h2, Nat.not_le.mpr hs]
+    exact hts
+  · have v_info : (relaHdr .c64 off rsym rtype add).get .r_info = ((rsym * 4294967296 + rtype : Nat) : Int) := by
+      simp [relaHdr, Hdr.get]
+    rw [v_info] at g_info
+    have e_info := Int.ofNat_inj.mp g_info
+    have hts := toSigned_rawOf (f := .q) rfl f_add
+    simp only [e_info, e_off, g_add] at *
+    have h1 : (rsym * 4294967296 + rtype) / 4294967296 = rsym := by omega
+    have h2 : (rsym * 4294967296 + rtype) % 4294967296 = rtype := by omega
+    simp [h1, h2, Nat.not_le.mpr hs]
+    exact hts
+
+theorem mkSymbol_symHdr (c : Cls) (strtab name : List Nat) (nsec nm shndx value size : Nat) (g : Bool) (t : SymTyp)
+    (hname : strAt strtab nm = some name)
+    (hfits : ∀ f ∈ sym c, fits f.fmt ((symHdr nm g t shndx value size).get f.name) = true)
+    (hndx : shndx < nsec ∨ SHN_LORESERVE ≤ shndx) :
+    mkSymbol strtab nsec (recOf (sym c) (symHdr nm g t shndx value size)) =
+      .ok { name := name, value := value, size := size, bind := if g then 1 else 0, type := t.st, other := 0,
+            shndx := shndx } := by
+  have g_name := get_recOf_unsigned (fs := sym c) (n := .st_name) (f := ⟨.st_name, .I⟩) (by cases c <;> rfl) rfl hfits
+  have g_info := get_recOf_unsigned (fs := sym c) (n := .st_info) (f := ⟨.st_info, .B⟩) (by cases c <;> rfl) rfl hfits
+  have g_other := get_recOf_unsigned (fs := sym c) (n := .st_other) (f := ⟨.st_other, .B⟩) (by cases c <;> rfl) rfl hfits
+  have g_ndx := get_recOf_unsigned (fs := sym c) (n := .st_shndx) (f := ⟨.st_shndx, .H⟩) (by cases c <;> rfl) rfl hfits
+  have g_val := get_recOf_unsigned (fs := sym c) (n := .st_value) (f := ⟨.st_value, wordFmt c⟩) (by cases c <;> rfl)
+    (by cases c <;> rfl) hfits
+  have g_size := get_recOf_unsigned (fs := sym c) (n := .st_size) (f := ⟨.st_size, wordFmt c⟩) (by cases c <;> rfl)
+    (by cases c <;> rfl) hfits
+  have v1 : (symHdr nm g t shndx value size).get .st_name = (nm : Int) := by simp [symHdr, Hdr.get]
+  have v2 : (symHdr nm g t shndx value size).get .st_info = (((if g then 1 else 0) * 16 + t.st : Nat) : Int) := by
+    simp [symHdr, Hdr.get]
+  have v3 : (symHdr nm g t shndx value size).get .st_other = ((0 : Nat) : Int) := by simp [symHdr, Hdr.get]
+  have v4 : (symHdr nm g t shndx value size).get .st_shndx = (shndx : Int) := by simp [symHdr, Hdr.get]
+  have v5 : (symHdr nm g t shndx value size).get .st_value = (value : Int) := by simp [symHdr, Hdr.get]
+  have v6 : (symHdr nm g t shndx value size).get .st_size = (size : Int) := by simp [symHdr, Hdr.get]
+  rw [v1] at g_name; rw [v2] at g_info; rw [v3] at g_other; rw [v4] at g_ndx; rw [v5] at g_val; rw [v6] at g_size
+  have e1 := Int.ofNat_inj.mp g_name
+  have e2 := Int.ofNat_inj.mp g_info
+  have e3 := Int.ofNat_inj.mp g_other
+  have e4 := Int.ofNat_inj.mp g_ndx
+  have e5 := Int.ofNat_inj.mp g_val
+  have e6 := Int.ofNat_inj.mp g_size
+  unfold mkSymbol
+  rw [e1, hname]
+  simp only [e2, e3, e4, e5, e6]
+  have hbad : ¬ (nsec ≤ shndx ∧ shndx < SHN_LORESERVE) := by omega
+  rw [if_neg hbad]
+  have hst : t.st < 16 := by cases t <;> decide
+  have b1 : ((if g then 1 else 0) * 16 + t.st) / 16 = (if g then 1 else 0) := by cases g <;> simp <;> omega
+  have b2 : ((if g then 1 else 0) * 16 + t.st) % 16 = t.st := by cases g <;> simp <;> omega
+  rw [b1, b2]
 
 /-! ### what the reader's segments say about the file -/
 
